@@ -47,6 +47,9 @@ enum Status {
     Parked,
     Running,
     Finished,
+    /// the thread was scheduled and then stopped making progress inside a blocking call the scheduler cannot see (a real
+    /// lock held by a parked thread): it is treated as blocked until it shows up at its next point
+    Wedged,
 }
 
 /// Panic payload used to unwind harness threads when an execution is aborted.
@@ -78,6 +81,12 @@ struct Inner {
     lock_owner: HashMap<usize, usize>,
     /// the lock a thread parked at a `lock.acquire` point is about to take
     waiting_lock: Vec<Option<usize>>,
+    /// kernel thread id of the OS thread that currently carries logical thread t (0 = unknown)
+    os_tid: Vec<i64>,
+    /// bumped whenever any thread arrives at a point or finishes (progress indicator for the wedge watchdog)
+    progress: u64,
+    /// a thread was declared wedged during this execution (its OS thread may never come back)
+    any_wedged: bool,
 }
 
 impl Inner {
@@ -117,6 +126,12 @@ thread_local! {
     static IN_SCHED: Cell<bool> = const { Cell::new(false) };
 }
 
+/// OS threads (kernel ids) that were left blocked inside the library when their execution was given up.  If such a thread is
+/// released later (the thread holding what it waited for unwinds), it runs on to completion on the OLD objects; its points must
+/// not enter the execution that is current by then.
+static ZOMBIES: Mutex<Vec<i64>> = Mutex::new(Vec::new());
+static HAVE_ZOMBIES: std::sync::atomic::AtomicBool = std::sync::atomic::AtomicBool::new(false);
+
 type Passive = Box<dyn Fn(&'static str, usize, usize) + Send>;
 static PASSIVE: Mutex<Option<Passive>> = Mutex::new(None);
 
@@ -136,6 +151,12 @@ fn current_exec() -> Option<Arc<Exec>> {
 fn hook(site: &'static str, a: usize, b: usize) {
     if IN_SCHED.with(|f| f.get()) {
         return;
+    }
+    if HAVE_ZOMBIES.load(std::sync::atomic::Ordering::Relaxed) {
+        let me = unsafe { libc::syscall(libc::SYS_gettid) } as i64;
+        if ZOMBIES.lock().unwrap_or_else(|e| e.into_inner()).contains(&me) {
+            return;
+        }
     }
     let Some(ex) = current_exec() else {
         if std::thread::panicking() {
@@ -283,6 +304,35 @@ impl Exec {
                 g = self.wait_turn(g, tid);
                 if g.abort {
                     self.unwind_self(g, tid);
+                }
+                drop(g);
+                IN_SCHED.with(|f| f.set(false));
+                return;
+            }
+        }
+        {
+            let mut g = self.inner.lock().unwrap_or_else(|e| e.into_inner());
+            g.os_tid[tid] = unsafe { libc::syscall(libc::SYS_gettid) } as i64;
+            g.progress += 1;
+            if g.status[tid] == Status::Wedged {
+                // the blocking call returned after all (another thread released what it was waiting for): from here on the
+                // thread is an ordinary parked thread again; it waits for its turn before it performs the guarded access
+                g.status[tid] = Status::Parked;
+                if site == "lock.acquire" {
+                    g.waiting_lock[tid] = Some(a);
+                } else if site == "lock.release" {
+                    if g.lock_owner.get(&a) == Some(&tid) {
+                        g.lock_owner.remove(&a);
+                    }
+                }
+                g.events.push(Event { tid, site, a, b });
+                self.done.notify_all();
+                g = self.wait_turn(g, tid);
+                if g.abort {
+                    self.unwind_self(g, tid);
+                }
+                if let Some(addr) = g.waiting_lock[tid].take() {
+                    g.lock_owner.insert(addr, tid);
                 }
                 drop(g);
                 IN_SCHED.with(|f| f.set(false));
@@ -452,6 +502,7 @@ impl Exec {
         TID.with(|t| t.set(Some(tid)));
         let mut g = self.inner.lock().unwrap_or_else(|e| e.into_inner());
         g.status[tid] = Status::Parked;
+        g.os_tid[tid] = unsafe { libc::syscall(libc::SYS_gettid) } as i64;
         self.done.notify_all();
         g = self.wait_turn(g, tid);
         !g.abort
@@ -469,6 +520,7 @@ impl Exec {
         let mut g = self.inner.lock().unwrap_or_else(|e| e.into_inner());
         g.status[tid] = Status::Finished;
         g.finished += 1;
+        g.progress += 1;
         for t in 0..g.n {
             g.yield_blocked[t] = false;
         }
@@ -607,6 +659,9 @@ pub fn run_one<S: SchedSpec>(spec: &S, prefix: &[usize]) -> ExecResult {
             released: false,
             lock_owner: HashMap::new(),
             waiting_lock: vec![None; n],
+            os_tid: vec![0; n],
+            progress: 0,
+            any_wedged: false,
         }),
         cvs: (0..n).map(|_| Condvar::new()).collect(),
         done: Condvar::new(),
@@ -692,15 +747,23 @@ pub fn run_one<S: SchedSpec>(spec: &S, prefix: &[usize]) -> ExecResult {
     }
     // wait for completion
     let t0 = Instant::now();
+    let mut t_progress = Instant::now();
+    let mut last_progress = u64::MAX;
+    let mut wedged_threads: Vec<usize> = Vec::new();
+    let has_external = n > handles.len();
     {
         let mut g = ex.inner.lock().unwrap_or_else(|e| e.into_inner());
         loop {
+            if g.progress != last_progress {
+                last_progress = g.progress;
+                t_progress = Instant::now();
+            }
             if g.finished == g.n {
                 break;
             }
             if g.abort {
                 // wait for native threads to unwind; external threads may never report
-                let native_done = (0..handles.len()).all(|t| g.status[t] == Status::Finished);
+                let native_done = (0..handles.len()).all(|t| g.status[t] == Status::Finished || g.status[t] == Status::Wedged);
                 if native_done {
                     break;
                 }
@@ -708,15 +771,77 @@ pub fn run_one<S: SchedSpec>(spec: &S, prefix: &[usize]) -> ExecResult {
             if g.current.is_none() && !g.abort && g.finished < g.n {
                 // no enabled thread but unfinished ones exist
                 let (en, _) = Exec::enabled_list(&g, None);
-                if en.is_empty() {
+                let wedged_now: Vec<usize> = (0..g.n).filter(|t| g.status[*t] == Status::Wedged).collect();
+                if en.is_empty() && !wedged_now.is_empty() && !(t_progress.elapsed() > Duration::from_secs(3) && wedged_now.iter().all(|t| os_thread_sleeping(g.os_tid[*t]))) {
+                    // a thread that was blocked inside the library may be about to come back (what it waited for has just been
+                    // released): it gets 3 s of silence before the state counts as a deadlock
+                } else if en.is_empty() {
                     let msg = format!("no enabled thread; status {:?}", g.status);
-                    g.failure.get_or_insert(Fail::new("deadlock", msg));
+                    let cls = if g.any_wedged { "blocked_in_library" } else { "" };
+                    g.failure.get_or_insert(Fail::new("deadlock", msg).with_class(cls));
                     ex.kick_abort(&mut g);
                     continue;
+                } else if g.any_wedged {
+                    // a thread that had been blocked inside the library came back and parked while nobody held the token
+                    if let Some(t) = ex.decide(&mut g, None) {
+                        g.current = Some(t);
+                        g.status[t] = Status::Running;
+                        ex.cvs[t].notify_all();
+                        t_progress = Instant::now();
+                    }
                 }
             }
-            if t0.elapsed() > Duration::from_secs(20) {
-                g.machinery = Some(format!("execution wedged for 20 s (a thread is blocked outside the scheduler); status {:?} current {:?}", g.status, g.current));
+            if g.progress != last_progress {
+                last_progress = g.progress;
+                t_progress = Instant::now();
+            }
+            let silent = t_progress.elapsed();
+            if silent > Duration::from_secs(3) && !g.abort {
+                if let Some(r) = g.current.filter(|r| g.status[*r] == Status::Running) {
+                    // the scheduled thread has not reached a point for 3 s.  If its OS thread sleeps in the kernel it is blocked
+                    // on something a parked thread holds and the scheduler does not know about (a real lock taken outside a
+                    // declared lock scope): treat it as blocked and let the others run.  A thread that is still runnable
+                    // (starved machine, long computation) gets 60 s.
+                    let sleeping = os_thread_sleeping(g.os_tid[r]);
+                    if sleeping || silent > Duration::from_secs(60) {
+                        g.status[r] = Status::Wedged;
+                        g.any_wedged = true;
+                        wedged_threads.push(r);
+                        let (others, _) = Exec::enabled_list(&g, None);
+                        if has_external && !others.is_empty() {
+                            // logical threads carried by a foreign runtime (tokio tasks) cannot be resumed out of order safely:
+                            // without proof that nothing else can run this stays a machinery error, not a verdict
+                            g.machinery = Some(format!("execution wedged: thread {r} is blocked outside the scheduler while {:?} could still run; status {:?}", others, g.status));
+                            g.abort = true;
+                            break;
+                        }
+                        match ex.decide(&mut g, None) {
+                            Some(t) => {
+                                g.current = Some(t);
+                                g.status[t] = Status::Running;
+                                ex.cvs[t].notify_all();
+                                t_progress = Instant::now();
+                            }
+                            None => {
+                                let msg = format!(
+                                    "thread {r} is blocked inside the library ({}) and no other thread can run: every other unfinished thread waits for a lock ({:?}); thread status {:?}",
+                                    if sleeping { "its OS thread sleeps in a blocking call" } else { "no schedule point for 60 s" },
+                                    g.waiting_lock,
+                                    g.status
+                                );
+                                g.failure.get_or_insert(Fail::new("deadlock", msg).with_class("blocked_in_library"));
+                                ex.kick_abort(&mut g);
+                                continue;
+                            }
+                        }
+                    }
+                }
+            }
+            if t0.elapsed() > Duration::from_secs(std::env::var("ZV_WEDGE_LIMIT").ok().and_then(|v| v.parse().ok()).unwrap_or(30)) {
+                g.machinery = Some(format!(
+                    "execution wedged (a thread is blocked outside the scheduler); status {:?} current {:?} lock_owner {:?} waiting_lock {:?} any_wedged {} yield_blocked {:?}",
+                    g.status, g.current, g.lock_owner, g.waiting_lock, g.any_wedged, g.yield_blocked
+                ));
                 g.abort = true;
                 break;
             }
@@ -724,7 +849,10 @@ pub fn run_one<S: SchedSpec>(spec: &S, prefix: &[usize]) -> ExecResult {
             g = g2;
         }
     }
-    let wedged = ex.inner.lock().unwrap_or_else(|e| e.into_inner()).machinery.as_deref().map(|m| m.contains("wedged")).unwrap_or(false);
+    let wedged = {
+        let g = ex.inner.lock().unwrap_or_else(|e| e.into_inner());
+        g.machinery.as_deref().map(|m| m.contains("wedged")).unwrap_or(false) || g.status.iter().any(|s| *s == Status::Wedged)
+    };
     {
         let mut g = ex.inner.lock().unwrap_or_else(|e| e.into_inner());
         g.released = true;
@@ -734,6 +862,15 @@ pub fn run_one<S: SchedSpec>(spec: &S, prefix: &[usize]) -> ExecResult {
         for h in handles {
             let _ = h.join();
         }
+    } else {
+        let g = ex.inner.lock().unwrap_or_else(|e| e.into_inner());
+        let mut z = ZOMBIES.lock().unwrap_or_else(|e| e.into_inner());
+        for t in 0..g.n {
+            if g.status[t] != Status::Finished && g.os_tid[t] > 0 {
+                z.push(g.os_tid[t]);
+            }
+        }
+        HAVE_ZOMBIES.store(true, std::sync::atomic::Ordering::Relaxed);
     }
     *CURRENT_EXEC.lock().unwrap_or_else(|e| e.into_inner()) = None;
     let mut res = {
@@ -871,6 +1008,14 @@ impl<S: SchedSpec> Subject for Sched<S> {
                     let f = with_preemption_class(f, &r);
                     *ctx.stats(&name).outcomes.entry(format!("fail:{}:{}", f.clause, f.class)).or_insert(0) += 1;
                     ctx.violation(&name, &f, json!({"choices": choices}));
+                    if f.class.starts_with("blocked_in_library") {
+                        // an OS thread of that execution is stuck inside the library for good; every further schedule that
+                        // reaches the same state costs seconds and leaks another thread: one witness is enough
+                        let st = ctx.stats(&name);
+                        st.cap_hit = true;
+                        st.bound = format!("{} — exploration of this subject stopped at the first schedule that blocks a thread inside the library for good", st.bound);
+                        break;
+                    }
                 }
             }
         }
@@ -908,6 +1053,20 @@ impl<S: SchedSpec> Subject for Sched<S> {
             Some(f) => Verdict::Fail(with_preemption_class(f, &r)),
             None => Verdict::Pass,
         }
+    }
+}
+
+/// true iff the OS thread with kernel id `tid` sleeps in the kernel (state S or D in /proc): blocked, not starved or computing
+fn os_thread_sleeping(tid: i64) -> bool {
+    if tid <= 0 {
+        return false;
+    }
+    match std::fs::read_to_string(format!("/proc/self/task/{tid}/stat")) {
+        Ok(st) => match st.rfind(')') {
+            Some(i) => matches!(st[i + 1..].trim_start().chars().next(), Some('S') | Some('D')),
+            None => false,
+        },
+        Err(_) => false,
     }
 }
 
